@@ -19,12 +19,15 @@
 (*               the model (the behaviour stops there)                     *)
 (*     master  : "ok" or the exception class raised by write_fp            *)
 (*     boot, platform                                                      *)
-(*     entries : <<[media, count, ind, plat, systype, seg, patched, len,   *)
+(*     entries : <<[media, count, ind, plat, systype, seg, patched (a boot *)
+(*                  info table is maintained), loose (bytes 8..63 are not  *)
+(*                  the blob's: patched now, or reopened while patched),   *)
+(*                  len,                                                   *)
 (*                  names: <<[ns, path]>>, sha_file, sha_file_nobit,       *)
 (*                  csum_hex, media_sha]>>                                 *)
 (*     catnames: <<[ns, path]>>   (iso / jol / rr names of the catalog)    *)
 (*     catpaths: <<[ns, path]>>   (iso / jol paths of the catalog)         *)
-(*     files   : <<[ns, path, len, sha, sha_nobit, patched]>>              *)
+(*     files   : <<[ns, path, len, sha, sha_nobit, patched, loose]>>       *)
 (*     hyb     : [on, entry, offset, ptype, sectors, heads, idgiven,       *)
 (*                id_hex, efi, mac, efik, mack]                            *)
 (*                                                                         *)
@@ -75,11 +78,11 @@ EntryFieldsMatch(i) ==
 \* length, and a diskette image is there in full
 RbaOk(i, e, x) ==
     /\ e.in_image /\ e.rba > 17 /\ e.rba < i.elt.pvd.space
-    /\ IF x.patched THEN e.sha_len_nobit = x.sha_file_nobit ELSE e.sha_len = x.sha_file
+    /\ IF x.loose THEN e.sha_len_nobit = x.sha_file_nobit ELSE e.sha_len = x.sha_file
     /\ \A n \in Range(x.names) : \E m \in Range(e.names) : m.ns = n.ns /\ m.path = n.path /\ m.size = x.len
     /\ (x.names # <<>> =>
           /\ e.file.known /\ e.file.size = x.len /\ e.file.complete
-          /\ IF x.patched THEN e.file.sha_nobit = x.sha_file_nobit ELSE e.file.sha = x.sha_file)
+          /\ IF x.loose THEN e.file.sha_nobit = x.sha_file_nobit ELSE e.file.sha = x.sha_file)
     /\ (x.media_sha # "" => e.media_sha = x.media_sha)
 LoadRbaIsWhereBootBytesStart(i) ==
     i.expect.boot => \A k \in 1..Min(Len(i.elt.entries), Len(i.expect.entries)) :
@@ -88,10 +91,11 @@ CatalogReachableAsFile(i) ==
     i.expect.boot =>
       \A n \in Range(i.expect.catnames) :
          \E m \in Range(i.elt.catalog.names) : m.ns = n.ns /\ m.path = n.path /\ m.size = 2048
-\* ... with identical bytes through the API, per namespace of the name used ("iso", "rr", "jol", "udf")
+\* ... with identical bytes through the API; reported per source ("live" object after mastering,
+\* "open": fresh object on the written image) and namespace of the name used (iso, rr, jol, udf)
 CatalogReadBad(i) ==
     IF i.expect.boot
-    THEN {r.ns : r \in {x \in Range(i.rb.cat) : ~(x.ok /\ x.len = 2048 /\ x.sha = i.elt.catalog.sha)}}
+    THEN {r.src \o "." \o r.ns : r \in {x \in Range(i.rb.cat) : ~(x.ok /\ x.len = 2048 /\ x.sha = i.elt.catalog.sha)}}
     ELSE {}
 \* as stored ...
 BitStored(i, e, x) ==
@@ -109,16 +113,18 @@ BootInfoTableStored(i) ==
       \A k \in Both(i) : i.expect.entries[k].patched => BitStored(i, i.elt.entries[k], i.expect.entries[k])
 BootInfoTableReadBad(i) ==
     IF i.expect.boot
-    THEN {r.ns : r \in {x \in Range(i.rb.boot) :
+    THEN {r.src \o "." \o r.ns : r \in {x \in Range(i.rb.boot) :
                          /\ x.k \in Both(i) /\ i.expect.entries[x.k].patched
                          /\ ~BitRead(i, x, i.elt.entries[x.k], i.expect.entries[x.k])}}
     ELSE {}
 \* files that are not patched read back as they were added
 ReadBackUnpatchedBad(i) ==
     IF i.expect.boot
-    THEN {r.ns : r \in {x \in Range(i.rb.boot) :
+    THEN {r.src \o "." \o r.ns : r \in {x \in Range(i.rb.boot) :
                          /\ x.k \in Both(i) /\ ~i.expect.entries[x.k].patched
-                         /\ ~(x.ok /\ x.sha = i.expect.entries[x.k].sha_file)}}
+                         /\ ~(x.ok /\ IF i.expect.entries[x.k].loose
+                                         THEN x.sha_nobit = i.expect.entries[x.k].sha_file_nobit
+                                         ELSE x.sha = i.expect.entries[x.k].sha_file)}}
     ELSE {}
 SectionHeadersConsistent(i) ==
     i.expect.boot =>
@@ -141,7 +147,7 @@ FilesAsExpected(i) ==
     /\ \A x \in Range(i.expect.files) :
           \E f \in Range(i.elt.files) :
              /\ f.ns = x.ns /\ f.path = x.path /\ f.size = x.len /\ f.complete
-             /\ IF x.patched THEN f.sha_nobit = x.sha_nobit ELSE f.sha = x.sha
+             /\ IF x.loose THEN f.sha_nobit = x.sha_nobit ELSE f.sha = x.sha
     /\ \A f \in Range(i.elt.files) :
           IsCat(i, f) \/ \E x \in Range(i.expect.files) : f.ns = x.ns /\ f.path = x.path
 
@@ -302,9 +308,10 @@ C12Clauses(i) ==
     \cup If(MacPartitionDelimitsItsSection(i), "MacPartitionDelimitsItsSection")
     \cup If(ApmConsistent(i), "ApmConsistent")
 
-\* "... and is otherwise an unchanged, valid ISO": the El Torito clauses hold on the hybrid image too
+\* "... and is otherwise an unchanged, valid ISO": unchanged is the differential clause above (the
+\* validity of the unchanged ISO is the subject of C03/C11, judged on the same bytes there).
 C12Failing(i) ==
     Gate(i, IF i.expect.hyb.on
-            THEN (IF i.hyb.errors # <<>> THEN {"DecoderErrors"} ELSE C12Clauses(i)) \cup C11Clauses(i)
-            ELSE If(i.hyb.sysarea_zero /\ i.hyb.tail.len = 0, "NoHybridLeftAfterRemoval") \cup C11Clauses(i))
+            THEN (IF i.hyb.errors # <<>> THEN {"DecoderErrors"} ELSE C12Clauses(i))
+            ELSE If(i.hyb.sysarea_zero /\ i.hyb.tail.len = 0, "NoHybridLeftAfterRemoval"))
 =============================================================================
